@@ -219,8 +219,8 @@ def run(chk):
         early = [s for s in stores if s.lineno < first_call]
         chk.ob("C16-R2", "sequentials.main.Sequential.reorder_equations", ok and not early,
                "delegates to the invariant (which validates) before any own store", sm.loc(h))
-    rule_r3(chk)
-    rule_r4(chk)
+    chk.guard(rule_r3, chk)
+    chk.guard(rule_r4, chk)
     # diagnostic: exceptions constructed but not raised
     bm = chk.repo.mod(BMOD)
     for q, fn in bm.functions():
